@@ -95,6 +95,26 @@ def f1_shared(tier="thorough"):
     out.append(["Power", ["Add", X, ["const", 1]], ["Add", X, ["const", 1]]])
     out.append(["Minus", ["NthPower", X, 2], ["NthPower", X, 2]])
     out.append(["Divide", ["Sine", ["Multiply", X, Y]], ["Sine", ["Multiply", X, Y]]])
+    # ... and of n-ary nodes (equal, distinct, each with a sub-tree of its own that holds cached values)
+    out.append(["Multiply", ["NthPower", X, 2], ["NthPower", X, 2]])
+    out.append(["Add", ["Sine", ["Multiply", X, Y]], ["Sine", ["Multiply", X, Y]], Y])
+    out.append(["Multiply", ["Exponential", ["Negation", X]], Y, ["Exponential", ["Negation", X]], ["Exponential", ["Negation", X]]])
+    out.append(["Add", ["Reciprocal", ["Add", X, Y]], ["Reciprocal", ["Add", X, Y]]])
+    return out
+
+
+def sandwiches(d, second="rev"):
+    """warm-up sequences in which the MAIN point comes first: the root is evaluated at the main point (the very same Point object, or an equal
+    one), then the caches below it are refilled at another point q through a different entry point or through a shared sub-expression object, and
+    only then the operation under test runs at the main point again"""
+    import re as _re
+    keys = sorted(set(_re.findall(r'"share", "(\w+)"', json.dumps(d))))
+    out = [[["eval", "root", ""], [second, "root", "q"]],
+           [["eval", "root", "="], ["fwd" if second != "fwd" else "rev", "root", "q"]],
+           [["eval", "root", ""], ["eval", "root", "q"], ["fwd_early", "root", "q"]]]
+    for k in keys:
+        out.append([["eval", "root", ""], ["eval", k, "q"]])
+        out.append([["eval", k, ""], ["eval", "root", "q"], ["eval", k, "q"]])
     return out
 
 
